@@ -155,3 +155,17 @@ PROPS["C09"] = dict(
                  "IEEE-754 comparison); it is checked against Rust's f64 by this run"],
     trusted_extra=["Coq.Floats.SpecFloat as the definition of binary64 comparison/arithmetic"],
 )
+
+PROPS["C10"] = dict(
+    streams=["C10"],
+    compare=cmp_eval,
+    classify=lambda case, model, why: dict(kind="failing-input", why=why),
+    gate_imports=EVAL_GATE + "From Cel.Model Require Import Macros.\nFrom Cel.Proofs Require Import CtxEquiv LogicProofs MacroProofs.",
+    exhaustive=True,
+    exhaustive_note="all 7 macro forms x 12 predicate / 6 transform bodies over every list of "
+                    "length 0-4 (thorough: 0-6) from a 4-value alphabet; plus maps, longer random "
+                    "lists, non-iterable ranges and the expansion of every macro form against the "
+                    "real parser",
+    rule="a case is (program, context); non-trivial when the range has >= 2 elements or the body "
+         "raises or logs on some element; distinct by program text and context",
+)
